@@ -6,6 +6,11 @@ import ClipperVerif.Driver.C05
 import ClipperVerif.Driver.C02
 import ClipperVerif.Driver.Ael
 import ClipperVerif.Driver.C11
+import ClipperVerif.Driver.C06
+import ClipperVerif.Driver.C07
+import ClipperVerif.Driver.OffsetFrame
+import ClipperVerif.Driver.C17
+import ClipperVerif.Driver.C20
 namespace Clipper.Driver
 open Clipper.Proto
 
@@ -17,7 +22,12 @@ def handlers : List (String → Option (P String)) := [
   C05.handle,
   C02.handle,
   Ael.handle,
-  C11.handle
+  C11.handle,
+  C06.handle,
+  C07.handle,
+  OffsetFrame.handle,
+  C17.handle,
+  C20.handle
 ]
 
 def dispatch (cmd : String) : Option (P String) :=
